@@ -21,10 +21,17 @@ EXIT_OK, EXIT_VIOLATION, EXIT_INCONCLUSIVE = 0, 1, 3
 def _worker(args):
     modname, case, tier, seed = args
     t0 = time.time()
+    trace = os.environ.get("SX_TRACE_CASES")
+    if trace:
+        with open(trace, "a") as fp:
+            fp.write(f"start {os.getpid()} {json.dumps(case)}\n")
     try:
         mod = importlib.import_module(modname)
         out = mod.run_case(case, tier)
         out.setdefault("error", None)
+        if trace:
+            with open(trace, "a") as fp:
+                fp.write(f"end {os.getpid()} {time.time() - t0:.1f}s {json.dumps(case)}\n")
     except BaseException as e:  # noqa
         out = {
             "error": f"{type(e).__name__}: {e}\n{traceback.format_exc(limit=8)}",
